@@ -118,6 +118,8 @@ static int sigq[32], nsigq;
 /* monitors */
 static int inflight, peak, peak_step = -1, early_return, nfwd;
 static long inline_run, spin_limit = 200000;
+#define NEVER (1L << 60)        /* script time "never": `out -1 EOF` = the stream hangs from there on */
+static int reltime;             /* script times relative to the host's own connectBegin / connectEnd */
 static long nsteps_spurious;
 
 /* ------------------------------------------------------------------ utilities */
@@ -174,7 +176,8 @@ static const char *cond_name(void *c) { return c == verif_tc_cond() ? "tc" : "c"
 static struct vthread *thread_of(pthread_t p)
 {
     int i;
-    for (i = 1; i < nth; i++)
+    /* newest first: the pthread_t of a finished (detached) thread may be reused by a later one */
+    for (i = nth - 1; i >= 1; i--)
         if (pthread_equal(th[i].real, p))
             return &th[i];
     return NULL;
@@ -205,6 +208,7 @@ static long fd_next_time(int fd)
     struct script *s = script_of(fd);
     if (!s || s->closed || s->cur >= s->n)
         return -1;
+    if (s->it[s->cur].at >= NEVER) return -1;
     return s->it[s->cur].at > vclock ? s->it[s->cur].at : -1;
 }
 
@@ -524,6 +528,7 @@ static int apply(struct vthread *t, int spurious, int inl)
         return 1;
     case OP_CONNBEGIN: {
         struct vhost *h = &vhosts[o->a];
+        if (reltime) h->conn_at = vclock + h->conn_rel;
         h->nbegin++;
         inflight++;
         if (inflight > peak) { peak = inflight; peak_step = (int) step_no; }
@@ -538,7 +543,15 @@ static int apply(struct vthread *t, int spurious, int inl)
         struct vhost *h = &vhosts[o->a];
         h->nend++;
         if (t->interrupted) { t->interrupted = 0; o->ret = -1; o->err = EINTR; }
-        else if (h->conn_kind == CONN_OK) { o->ret = VFD_BASE + 2 * o->a; h->connected = 1; }
+        else if (h->conn_kind == CONN_OK) {
+            o->ret = VFD_BASE + 2 * o->a; h->connected = 1;
+            if (reltime) {      /* the remote side's stream script starts now */
+                int k2, j2;
+                for (k2 = 0; k2 < 2; k2++)
+                    for (j2 = 0; j2 < h->s[k2].n; j2++)
+                        if (h->s[k2].it[j2].at < NEVER) h->s[k2].it[j2].at += vclock;
+            }
+        }
         else { o->ret = -1; o->err = ECONNREFUSED; }
         if (!q) { evhdr(t, inl); fprintf(stdout, "connectEnd %ld %ld\n", o->a, o->ret); }
         t->hist = mix(t->hist, (uint64_t) o->ret);
@@ -983,6 +996,8 @@ int main(int argc, char **argv)
         else if (!strcmp(k, "inline")) trace_inline = atoi(v);
         else if (!strcmp(k, "budget")) budget = atol(v);
         else if (!strcmp(k, "spinlimit")) spin_limit = atol(v);
+        else if (!strcmp(k, "reltime")) reltime = atoi(v);
+        else if (!strcmp(k, "connerr")) stub_connerr = atoi(v);
         else if (!strcmp(k, "seed")) { rng = 88172645463325252ULL ^ ((uint64_t) atoll(v) * 0x9e3779b97f4a7c15ULL); if (!rng) rng = 1; rnd(); rnd(); }
         else if (!strcmp(k, "spurious")) { spur_rate = atoi(v); v = strtok(NULL, " \t\n"); spur_max = v ? atoi(v) : 1000000; }
         else if (!strcmp(k, "tickrate")) tick_rate = atoi(v);
@@ -1004,6 +1019,7 @@ int main(int argc, char **argv)
             h->conn_kind = !strcmp(v, "refuse") ? CONN_REFUSE : !strcmp(v, "hang") ? CONN_HANG : CONN_OK;
             v = strtok(NULL, " \t\n");
             h->conn_at = v ? atol(v) : 0;
+            h->conn_rel = h->conn_at;
         } else if (h && !strcmp(k, "rc")) h->destroy_rc = atoi(v);
         else if (h && !strcmp(k, "destroyhang")) h->destroy_hang = atoi(v);
         else if (h && (!strcmp(k, "out") || !strcmp(k, "err"))) {
@@ -1012,7 +1028,7 @@ int main(int argc, char **argv)
             char *d = strtok(NULL, " \t\n");
             if (s->n >= MAXITEMS) { fprintf(stderr, "too many script items\n"); return 3; }
             it = &s->it[s->n++];
-            it->at = atol(v);
+            it->at = atol(v) < 0 ? NEVER : atol(v);
             if (!d || !strcmp(d, "EOF")) it->kind = IT_EOF;
             else if (!strcmp(d, "ERR")) it->kind = IT_ERR;
             else { it->kind = IT_DATA; it->bytes = unhex(d, &it->len); }
@@ -1022,10 +1038,11 @@ int main(int argc, char **argv)
     /* script times are relative to the start of the run */
     for (i = 0; i < nvhosts; i++) {
         int j, k;
+        if (reltime) continue;
         vhosts[i].conn_at += vclock;
         for (k = 0; k < 2; k++)
             for (j = 0; j < vhosts[i].s[k].n; j++)
-                vhosts[i].s[k].it[j].at += vclock;
+                if (vhosts[i].s[k].it[j].at < NEVER) vhosts[i].s[k].it[j].at += vclock;
     }
     fanout = opt.fanout;
     ct = opt.connect_timeout;
